@@ -26,8 +26,42 @@ let check_variants ~id (vs : Sexp.t list) : Sexp.t option * bool =
     if not same then result id "VIOL" "variants" "ownership variants of the operator give different trees";
     ((match v1 with Atom "panic" -> None | t -> Some t), same)
 
+(* the half-spaces polyhedra() reports for the edge into each node = the model's label_rows of the parent's predicate
+   (Pwl/EdgeRegion.v), row by row, for any branching factor *)
+let check_edges ~id (t : itree) (items : Sexp.t list) : unit =
+  let find i = List.find_opt (fun nd -> nd.idx = i) t.nodes in
+  let bad = ref None in
+  List.iter (function
+      | List [Atom "item"; i; sp] ->
+        let i = int_of i in
+        (match find i with
+         | Some nd ->
+           (match nd.parent with
+            | None -> ()
+            | Some pi ->
+              (match find pi with
+               | Some pn ->
+                 let label = (let rec pos k = function [] -> -1 | Some c :: _ when c = i -> k | _ :: r -> pos (k + 1) r in pos 0 pn.children) in
+                 let expect = label_rows pn.naff (nat_of_int label) in
+                 let got = aff_of sp in
+                 let got_rows = List.combine got.a_mat got.a_bias in
+                 let same = List.length expect = List.length got_rows &&
+                            List.for_all2 (fun (r1, b1) (r2, b2) -> veqb r1 r2 && qeqb b1 b2) expect got_rows in
+                 bump "edge_regions";
+                 if not same && !bad = None then bad := Some (Printf.sprintf "node %d (label %d below node %d): reported half-spaces differ from the per-row label bits of the predicate" i label pi)
+               | None -> ()))
+         | None -> ())
+      | _ -> raise (Parse_error "edge item")) items;
+  match !bad with
+  | Some d -> result id "VIOL" "edge-region" d
+  | None -> result id "OK" "edges" ""
+
 let check (case : Sexp.t) : unit =
   match case with
+  | List [Atom "case"; Atom id; Atom "edges"; st; List (Atom "items" :: items)] ->
+    check_edges ~id (itree_of st) items
+  | List [Atom "case"; Atom id; Atom "edges"; _; Atom "panic"] ->
+    result id "VIOL" "edge-region" "polyhedra() panicked"
   | List [Atom "case"; Atom id; Atom kind; Atom op; sa; sb; List (Atom "variants" :: vs); List (Atom "pts" :: pts)] ->
     bump (kind ^ "_" ^ op);
     let a = itree_of sa in
